@@ -24,7 +24,7 @@ PROFILE = {"conveyors": False, "pack": 2, "finite": 2,
            "policies": ["FIRST_AVAILABLE", "ROUND_ROBIN", "ROUND_ROBIN", "RANDOM", "const", "callable", "callable", "generator", "generator"]}
 PROFILE_BAD = dict(PROFILE, bad_index=True, pack=0)
 # congested pack lines whose combiner / splitter chooses among several out-edges, mostly under FIRST_AVAILABLE
-PROFILE_PACK = dict(PROFILE, pack=10, finite=0, policies=["FIRST_AVAILABLE", "FIRST_AVAILABLE", "FIRST_AVAILABLE", "ROUND_ROBIN", "callable"])
+PROFILE_PACK = dict(PROFILE, pack=10, finite=0, split_fanin=5, policies=["FIRST_AVAILABLE", "FIRST_AVAILABLE", "FIRST_AVAILABLE", "ROUND_ROBIN", "callable"])
 
 
 def examples(tier):
